@@ -119,13 +119,16 @@ class Code15(Code13):
                 continue
             prev_offset = offset
             prev_line_number = line_number
-            while offset_diff >= 256:
+            while offset_diff > 255:
                 co_lnotab += chr(255)
                 co_lnotab += chr(0)
                 offset_diff -= 255
-            while line_diff >= 256:
-                co_lnotab += chr(0)
+            # A line increment applies after the offset increment of its
+            # entry, so the offset has to be advanced by the first entry.
+            while line_diff > 255:
+                co_lnotab += chr(offset_diff)
                 co_lnotab += chr(255)
+                offset_diff = 0
                 line_diff -= 255
             co_lnotab += chr(offset_diff)
             co_lnotab += chr(line_diff)
